@@ -367,7 +367,7 @@ PLAN = {
     ),
     'C11': dict(
         level='model_checking', engine='kani',
-        kani=klex_suite('K-lex subpatterns', ('twin',) + SPEC_KINDS, ['P1', 'P2'],
+        kani=klex_suite('K-lex subpatterns', ('twin',) + SPEC_KINDS, ['P1', 'P2', 'P3'],
                         covers=['twins: token', 'twins: error'], quick_per_def=8,
                         bounded='relational: subpattern definitions P1, P2 vs twins with references inlined by hand as (?u:..)/(?-u:..) groups, plus both vs the spec; concrete contexts with symbolic bytes'),
         technique='relational bounded model checking (Kani): subpattern definitions vs hand-inlined twins',
@@ -440,7 +440,7 @@ PLAN = {
     'C18': dict(
         level='model_checking', engine='kani',
         kani=[dict(s, build_failure_is_violation=True) for s in
-              klex_suite('K-lex argument order', ('twin',) + SPEC_KINDS, ['O1', 'O2', 'O3'],
+              klex_suite('K-lex argument order', ('twin',) + SPEC_KINDS, ['O1', 'O2', 'O3', 'O4'],
                          covers=['twins: token', 'twins: error'], quick_per_def=10,
                          bounded='relational, sampled: definitions O1 (token/regex/skip arguments) and O2 (one combined #[logos(..)] attribute) vs twins with permuted arguments (O1A, O1B, O2A); a permutation the derive rejects fails the build of the corpus crate and is reported as a violation')],
         technique='relational bounded model checking (Kani) of definitions whose attribute arguments are permuted; build outcome of the corpus crate',
